@@ -237,12 +237,24 @@ Definition res_ok (r : ares) (rst : bytes) (m : N) : Prop :=
 Definition M (s : filt) (m : N) : nat :=
   (3 * mu (cl s) + (if (cavail s =? 0)%N then 0 else if (avail s <? m)%N then 2 else 1))%nat.
 
+(* the skip plan may only be consumed from the front *)
 Definition same_client_cfg (c c' : client) : Prop :=
-  cdata c' = cdata c /\ splan c' = splan c /\ kplan c' = kplan c /\
+  cdata c' = cdata c /\ (exists pre, splan c = pre ++ splan c') /\ kplan c' = kplan c /\
   has_skip c' = has_skip c /\ has_seek c' = has_seek c.
 
 Lemma same_cfg_refl c : same_client_cfg c c.
-Proof. repeat split. Qed.
+Proof. split; [reflexivity|split; [exists []; reflexivity|repeat split]]. Qed.
+
+Lemma same_cfg_of_eq c c' :
+  cdata c' = cdata c -> splan c' = splan c -> kplan c' = kplan c ->
+  has_skip c' = has_skip c -> has_seek c' = has_seek c -> same_client_cfg c c'.
+Proof. intros A B C0 D E. split; [auto|split; [exists []; rewrite B; reflexivity|auto]]. Qed.
+
+Lemma same_cfg_trans c1 c2 c3 : same_client_cfg c1 c2 -> same_client_cfg c2 c3 -> same_client_cfg c1 c3.
+Proof.
+  intros (A1 & (p1 & B1) & C1 & D1 & E1) (A2 & (p2 & B2) & C2 & D2 & E2).
+  split; [congruence|split; [exists (p1 ++ p2); rewrite B1, B2, app_assoc; reflexivity|repeat split; congruence]].
+Qed.
 
 Definition step_ok (s s' : filt) : Prop :=
   Inv s' /\ rest s' = rest s /\ fpos s' = fpos s /\ ffatal s' = false /\
@@ -409,7 +421,7 @@ Proof.
              ++ intros _. exists [], (copy s1). rewrite take_0, app_nil_r; reflexivity.
           -- rewrite !rest_eq. cbn [set_client_state copy cl]. unfold cwin at 1; cbn [set_client_state cavail cnext cbuf].
              rewrite Hc1, Hcw0, Hstream. rewrite drop_0, take_all by lia. reflexivity.
-          -- repeat split; auto.
+          -- apply same_cfg_of_eq; auto.
         * unfold M; cbn [set_client_state cl cavail copy]. rewrite ECA.
           assert (HZ : len b =? 0 = false).
           { apply N.eqb_neq. pose proof (len_pos_nonnil _ Hbne). lia. }
@@ -425,7 +437,7 @@ Proof.
              ++ intros _. exists [], (copy s1). rewrite app_nil_r; reflexivity.
           -- rewrite !rest_eq. cbn [set_client_state copy cl]. unfold cwin at 1; cbn [set_client_state cavail cnext cbuf].
              rewrite Hc1, Hcw0, Hs0, Hs0'. reflexivity.
-          -- repeat split; auto.
+          -- apply same_cfg_of_eq; auto.
         * cbn [res_ok]. rewrite rest_eq, Hcw0, Hs0, !app_nil_r. fold (avail s). fold av. split; auto. }
   (* copy more client data into the copy buffer *)
   apply N.eqb_neq in ECA. rewrite Hca1 in ECA.
@@ -508,8 +520,8 @@ Qed.
 
 Lemma step_ok_trans s1 s2 s3 : step_ok s1 s2 -> step_ok s2 s3 -> step_ok s1 s3.
 Proof.
-  intros (I2 & R2 & P2 & F2 & (A2 & B2 & C2 & D2 & E2) & L2) (I3 & R3 & P3 & F3 & (A3 & B3 & C3 & D3 & E3) & L3).
-  step_ok_tac; auto; try congruence; [repeat split; congruence|lia].
+  intros (I2 & R2 & P2 & F2 & S2 & L2) (I3 & R3 & P3 & F3 & S3 & L3).
+  step_ok_tac; auto; try congruence; [eapply same_cfg_trans; eauto|lia].
 Qed.
 
 Lemma ahead_loop_spec m : m <= two63 -> forall fuel s,
@@ -607,7 +619,7 @@ Proof.
       * rewrite rest_eq. cbn [copy cl]. rewrite Hc. unfold cwin; cbn [cavail cnext cbuf].
         rewrite Hstream. rewrite drop_app_l by lia. cbn [app]. f_equal.
         apply take_all. rewrite len_drop. lia.
-      * repeat split; auto.
+      * apply same_cfg_of_eq; auto.
     + apply Z.leb_gt in E.
       set (s1 := mkFilt (bsize s) (boff s) (copy s) (ctotal s) (cavail s) (cnext s) b
                         (fpos s + Z.of_N (len b))%Z (feof s) (ffatal s) (oob s) c') in *.
@@ -626,7 +638,7 @@ Proof.
         assert (0 <= q)%Z by (unfold q; lia).
         replace (Z.to_N (Z.of_N (len b) + q)) with (len b + Z.to_N q) by lia.
         rewrite drop_add, drop_app_exact. reflexivity.
-      * destruct C1 as (A & B & C0 & D & E0). repeat split; congruence.
+      * eapply same_cfg_trans; [apply same_cfg_of_eq; eauto|exact C1].
   - destruct Hr as (Hs0 & Hs0' & Hlen). inversion H; subst; clear H.
     assert (Hn : Z.min req (Z.of_N (len (cstream (cl s)))) = 0%Z).
     { rewrite Hs0. unfold len; simpl. lia. }
@@ -634,8 +646,100 @@ Proof.
     split; [lia|]. split; [|split; [|split; [|split]]]; cbn [fpos ffatal cl]; auto; try lia.
     + apply Inv_stale; cbn [oob copy cavail feof cl boff bsize]; auto.
     + rewrite rest_stale by (cbn [copy cavail]; auto). cbn [cl]. rewrite Hs0, Hs0'. reflexivity.
-    + repeat split; auto.
+    + apply same_cfg_of_eq; auto.
 Qed.
+
+(* ---------------- honest skip callbacks ---------------- *)
+Definition honest_sact (a : sact) : Prop := match a with SkUpTo _ => True | SkRet _ => False end.
+(* a client whose skip callback (if any) skips at most what it is asked and reports it truthfully,
+   and that has no seek callback *)
+Definition skippable (c : client) : Prop := has_seek c = false /\ Forall honest_sact (splan c).
+
+Lemma plain_skippable_loop c : has_skip c = false -> has_seek c = false -> True.
+Proof. trivial. Qed.
+
+Lemma client_skip_honest c req g c' :
+  (0 < req)%Z -> Forall honest_sact (splan c) -> client_skip c req = (g, c') ->
+  (0 <= g <= Z.min req (Z.of_N (left c)))%Z /\ cpos c' = cpos c + Z.to_N g /\
+  cdata c' = cdata c /\ rplan c' = rplan c /\ kplan c' = kplan c /\
+  has_skip c' = has_skip c /\ has_seek c' = has_seek c /\ Forall honest_sact (splan c') /\
+  (exists pre, splan c = pre ++ splan c') /\
+  (length (splan c') < length (splan c) \/ splan c = [] /\ splan c' = [] /\ g = Z.min req (Z.of_N (left c)))%nat.
+Proof.
+  intros Hreq Hh H. unfold client_skip in H.
+  destruct (splan c) as [|a tl] eqn:EP.
+  - inversion H; subst; clear H. cbn [cpos cdata rplan splan kplan has_skip has_seek].
+    assert (HG : Z.of_N (N.min (Z.to_N req) (N.min (Z.to_N req) (left c))) = Z.min req (Z.of_N (left c))) by lia.
+    rewrite HG. repeat split; auto; try lia.
+    + exists []; reflexivity.
+  - inversion Hh as [|? ? Ha Htl]; subst. destruct a as [k|v]; [|contradiction].
+    inversion H; subst; clear H. cbn [cpos cdata rplan splan kplan has_skip has_seek].
+    repeat split; auto; try lia.
+    + exists [SkUpTo k]; reflexivity.
+Qed.
+
+Lemma cstream_after_skip c c' t :
+  cdata c' = cdata c -> cpos c' = cpos c + t -> cstream c' = drop t (cstream c).
+Proof. intros A B. unfold cstream. rewrite A, B, drop_add. reflexivity. Qed.
+
+Lemma left_len c : left c = len (cstream c).
+Proof. unfold left, cstream. rewrite len_drop. reflexivity. Qed.
+
+Lemma skip_loop_spec : forall fuel c req tot r c',
+  (0 < req)%Z -> Forall honest_sact (splan c) ->
+  (2 * length (splan c) + (if (left c =? 0)%N then 0 else 1) + 1 < fuel)%nat ->
+  skip_loop fuel c req tot = (r, c') ->
+  exists t, (0 <= t <= Z.min req (Z.of_N (left c)))%Z /\ r = (tot + t)%Z /\
+    cpos c' = cpos c + Z.to_N t /\ cdata c' = cdata c /\ rplan c' = rplan c /\ kplan c' = kplan c /\
+    has_skip c' = has_skip c /\ has_seek c' = has_seek c /\ Forall honest_sact (splan c') /\
+    (exists pre, splan c = pre ++ splan c').
+Proof.
+  induction fuel as [|k IH]; intros c req tot r c' Hreq Hh Hf H; [lia|].
+  cbn [skip_loop] in H.
+  destruct (client_skip c req) as [g c1] eqn:EC.
+  destruct (client_skip_honest _ _ _ _ Hreq Hh EC) as (G & P & D & R & K & S1 & S2 & Hh1 & (pre & Hpre) & Hlen).
+  assert (E0 : (g <? 0)%Z = false) by (apply Z.ltb_ge; lia). rewrite E0 in H.
+  destruct ((g =? 0)%Z || (g =? req)%Z) eqn:E1.
+  - inversion H; subst; clear H. exists g. repeat split; auto; try lia. exists pre; auto.
+  - apply orb_false_iff in E1. destruct E1 as [Eg0 Egr]. apply Z.eqb_neq in Eg0. apply Z.eqb_neq in Egr.
+    assert (E2 : (req <? g)%Z = false) by (apply Z.ltb_ge; lia). rewrite E2 in H.
+    assert (Hleft1 : left c1 = left c - Z.to_N g) by (unfold left; rewrite D, P; lia).
+    apply IH in H; try lia; auto.
+    + destruct H as (t & T & -> & P2 & D2 & R2 & K2 & S3 & S4 & Hh2 & (pre2 & Hpre2)).
+      exists (g + t)%Z. rewrite Hleft1 in T.
+      split; [lia|]. split; [lia|]. split; [rewrite P2, P; lia|].
+      split; [congruence|]. split; [congruence|]. split; [congruence|]. split; [congruence|].
+      split; [congruence|]. split; [exact Hh2|].
+      exists (pre ++ pre2). rewrite Hpre, Hpre2, app_assoc. reflexivity.
+    + destruct Hlen as [Hl|(E & E' & Hg)].
+      * destruct (left c1 =? 0); destruct (left c =? 0); lia.
+      * (* plan exhausted: this skip took everything that was left *)
+        rewrite E in Hf. rewrite E'. cbn [length] in *.
+        assert (left c1 = 0) by (rewrite Hleft1; lia).
+        rewrite H0. cbn [N.eqb].
+        destruct (left c =? 0) eqn:EL; [apply N.eqb_eq in EL; lia|]. lia.
+Qed.
+
+Lemma skip_proxy_spec s r sk c' :
+  skippable (cl s) -> (0 < r)%Z -> skip_proxy s r = (sk, c') ->
+  exists t, (0 <= t <= Z.min r (Z.of_N (left (cl s))))%Z /\ sk = t /\
+    cpos c' = cpos (cl s) + Z.to_N t /\ cdata c' = cdata (cl s) /\ rplan c' = rplan (cl s) /\
+    kplan c' = kplan (cl s) /\ has_skip c' = has_skip (cl s) /\ has_seek c' = has_seek (cl s) /\
+    Forall honest_sact (splan c') /\ (exists pre, splan (cl s) = pre ++ splan c').
+Proof.
+  intros [Hk Hh] Hr H. unfold skip_proxy in H.
+  assert (E : (r =? 0)%Z = false) by (apply Z.eqb_neq; lia). rewrite E in H.
+  destruct (has_skip (cl s)) eqn:ES.
+  - apply skip_loop_spec in H; auto.
+    + destruct H as (t & T & -> & P & D & R & K & S1 & S2 & Hh' & Hpre).
+      exists t. rewrite Z.add_0_l. repeat split; auto; try lia; try congruence.
+    + destruct (left (cl s) =? 0); lia.
+  - rewrite Hk in H. cbn [andb] in H. inversion H; subst; clear H.
+    exists 0%Z. repeat split; auto; try lia. exists []; reflexivity.
+Qed.
+
+Lemma plain_skippable c : has_skip c = false -> has_seek c = false -> splan c = [] -> skippable c.
+Proof. intros _ B E. split; [exact B|rewrite E; constructor]. Qed.
 
 Lemma drop_copy_tail (cp : bytes) (m1 : N) u v T :
   u ++ cp = v ++ T -> exists u', u' ++ drop m1 cp = v ++ T.
@@ -644,7 +748,7 @@ Proof.
 Qed.
 
 Lemma advance_spec s req r s' :
-  Inv s -> ffatal s = false -> plain (cl s) -> (0 < req)%Z ->
+  Inv s -> ffatal s = false -> skippable (cl s) -> (0 < req)%Z ->
   advance s req = (r, s') ->
   let n := Z.min req (Z.of_N (len (rest s))) in
   r = n /\ Inv s' /\ rest s' = drop (Z.to_N n) (rest s) /\ fpos s' = (fpos s + n)%Z /\
@@ -715,20 +819,20 @@ Proof.
     split; [reflexivity|]. split; [exact HI2|]. split; [exact Hrest2|].
     split; [cbn [s2 fpos]; lia|]. split; [reflexivity|apply same_cfg_refl].
   - apply Z.eqb_neq in E2.
-    rewrite skip_proxy_plain in H by exact Hpl.
-    cbn [Z.ltb Z.compare] in H. cbv zeta in H.
-    replace (0 <? 0)%Z with false in H by reflexivity.
-    set (s3 := set_pos_client s2 (fpos s2 + 0)%Z (cl s2)) in *.
-    replace (r1 - m2 - 0 =? 0)%Z with false in H by (symmetry; apply Z.eqb_neq; lia).
     assert (Hr1 : r1 <> 0%Z) by (unfold m2 in *; lia).
     assert (Hm2c : Z.to_N m2 = cavail s) by (unfold m2 in *; lia).
-    assert (Hc3 : copy s3 = []) by (cbn [s3 set_pos_client copy s2]; auto).
-    assert (Hca3 : cavail s3 = 0) by (cbn [s3 set_pos_client cavail s2]; lia).
-    apply adv_read_loop_spec in H; auto; try lia;
-      try (cbn [s3 set_pos_client oob boff bsize cl ffatal feof fpos s2 copy cavail]; auto; lia).
-    2:{ cbn [s3 set_pos_client cl s2]. unfold mu. destruct (cstream (cl s)); lia. }
-    cbn [s3 set_pos_client oob boff bsize cl ffatal feof fpos s2] in H.
-    destruct H as (R1 & I1 & Rs1 & P1 & F1 & C1).
+    assert (Hr2pos : (0 < r1 - m2)%Z) by (unfold m2, r1, m1 in *; lia).
+    destruct (skip_proxy s2 (r1 - m2)) as [sk c'] eqn:ESK.
+    assert (Hsk2 : skippable (cl s2)) by (cbn [s2 cl]; exact Hpl).
+    destruct (skip_proxy_spec _ _ _ _ Hsk2 Hr2pos ESK) as
+      (t & T & -> & P & D & R & K & S1 & S2 & Hh' & (pre & Hpre)).
+    cbn [s2 cl] in T, P, D, R, K, S1, S2, Hpre.
+    assert (E0 : (t <? 0)%Z = false) by (apply Z.ltb_ge; lia). rewrite E0 in H.
+    set (s3 := set_pos_client s2 (fpos s2 + t)%Z c') in *.
+    assert (Hcfg3 : same_client_cfg (cl s) c').
+    { split; [auto|split; [exists pre; auto|repeat split; auto]]. }
+    assert (Hnf3 : nofault c') by (unfold nofault; rewrite R; exact Inf).
+    assert (Hcs3 : cstream c' = drop (Z.to_N t) (cstream (cl s))) by (apply cstream_after_skip; auto).
     assert (Hrs2 : rest s2 = cstream (cl s)).
     { rewrite rest_stale; [reflexivity| |]; cbn [s2 copy cavail]; [exact (Hcopy2 Hr1)|lia]. }
     assert (Hlen : Z.of_N (len (rest s)) = (m1 + m2 + Z.of_N (len (cstream (cl s))))%Z).
@@ -742,22 +846,46 @@ Proof.
           rewrite cwin_fresh by auto. destruct Hfr. rewrite len_drop. lia. }
         unfold r1, m1, m2 in *. lia. }
       lia. }
-    assert (Hn : Z.min req (Z.of_N (len (rest s))) =
-                 (m1 + m2 + Z.min (r1 - m2 - 0) (Z.of_N (len (cstream (cl s)))))%Z).
-    { unfold r1 in *. lia. }
-    cbv zeta. rewrite Hn.
-    split; [lia|]. split; [exact I1|]. split; [|split; [lia|split; [exact F1|exact C1]]].
-    rewrite Rs1.
-    set (q := Z.min (r1 - m2 - 0) (Z.of_N (len (cstream (cl s))))).
-    assert (0 <= q)%Z by (unfold q; lia).
-    rewrite <- Hrs2, Hrest2.
-    replace (Z.to_N (m1 + m2 + q)) with (Z.to_N (m1 + m2) + Z.to_N q) by lia.
-    rewrite drop_add. reflexivity.
+    rewrite left_len in T.
+    assert (Hc3 : copy s3 = []) by (cbn [s3 set_pos_client copy s2]; auto).
+    assert (Hca3 : cavail s3 = 0) by (cbn [s3 set_pos_client cavail s2]; lia).
+    assert (Hrest3 : rest s3 = drop (Z.to_N (m1 + m2 + t)) (rest s)).
+    { rewrite rest_stale by auto. cbn [s3 set_pos_client cl]. rewrite Hcs3, <- Hrs2, Hrest2.
+      replace (Z.to_N (m1 + m2 + t)) with (Z.to_N (m1 + m2) + Z.to_N t) by lia.
+      rewrite drop_add. reflexivity. }
+    assert (Heof3 : feof s = true -> cstream c' = []).
+    { intros F. rewrite Hcs3, (Ieof F). unfold drop. apply skipn_nil. }
+    destruct (r1 - m2 - t =? 0)%Z eqn:E3.
+    + apply Z.eqb_eq in E3. inversion H; subst; clear H.
+      assert (Hn : Z.min req (Z.of_N (len (rest s))) = (m1 + m2 + t)%Z) by (unfold r1 in *; lia).
+      cbv zeta. rewrite Hn.
+      split; [reflexivity|]. split; [|split; [exact Hrest3|split; [cbn [s3 set_pos_client fpos s2]; lia|split; [reflexivity|exact Hcfg3]]]].
+      apply Inv_stale; cbn [s3 set_pos_client oob boff bsize copy cavail feof cl s2]; auto; try lia.
+    + apply Z.eqb_neq in E3.
+      apply adv_read_loop_spec in H; auto; try lia;
+        try (cbn [s3 set_pos_client oob boff bsize cl ffatal feof fpos s2 copy cavail]; auto; lia).
+      2:{ cbn [s3 set_pos_client cl s2]. unfold mu. rewrite R. destruct (cstream c'); lia. }
+      cbn [s3 set_pos_client oob boff bsize cl ffatal feof fpos s2] in H.
+      destruct H as (R1 & I1 & Rs1 & P1 & F1 & C1).
+      assert (Hlen3 : Z.of_N (len (cstream c')) = (Z.of_N (len (cstream (cl s))) - t)%Z).
+      { rewrite Hcs3, len_drop. lia. }
+      assert (Hn : Z.min req (Z.of_N (len (rest s))) =
+                   (m1 + m2 + t + Z.min (r1 - m2 - t) (Z.of_N (len (cstream c'))))%Z).
+      { unfold r1 in *. lia. }
+      cbv zeta. rewrite Hn.
+      split; [lia|]. split; [exact I1|]. split; [|split; [lia|split; [exact F1|eapply same_cfg_trans; eauto]]].
+      rewrite Rs1.
+      set (q := Z.min (r1 - m2 - t) (Z.of_N (len (cstream c')))).
+      assert (0 <= q)%Z by (unfold q; lia).
+      assert (Hrs3 : cstream c' = rest s3) by (rewrite rest_stale by auto; reflexivity).
+      rewrite Hrs3, Hrest3.
+      replace (Z.to_N (m1 + m2 + t + q)) with (Z.to_N (m1 + m2 + t) + Z.to_N q) by lia.
+      rewrite drop_add. reflexivity.
 Qed.
 
 (* __archive_read_filter_consume *)
 Lemma consume_spec s req r s' :
-  Inv s -> ffatal s = false -> plain (cl s) -> consume s req = (r, s') ->
+  Inv s -> ffatal s = false -> skippable (cl s) -> consume s req = (r, s') ->
   Inv s' /\ ffatal s' = false /\ same_client_cfg (cl s) (cl s') /\
   ((req < 0)%Z /\ r = ARCHIVE_FATAL /\ s' = s \/
    (0 <= req <= Z.of_N (len (rest s)))%Z /\ r = req /\
@@ -820,10 +948,16 @@ Proof. intros [t ->] H. symmetry; apply take_app_l; exact H. Qed.
 Lemma prefix_len {A} (w l : list A) : prefix w l -> len w <= len l.
 Proof. intros [t ->]. rewrite len_app. lia. Qed.
 
-Definition good (s : filt) : Prop := Inv s /\ ffatal s = false /\ plain (cl s).
+Definition good (s : filt) : Prop := Inv s /\ ffatal s = false /\ skippable (cl s).
 
-Lemma plain_same c c' : same_client_cfg c c' -> plain c -> plain c'.
-Proof. intros (_ & _ & _ & A & B) [P1 P2]; split; congruence. Qed.
+Lemma Forall_app_r {A} (P : A -> Prop) (a b : list A) : Forall P (a ++ b) -> Forall P b.
+Proof. induction a; simpl; auto. intros H; inversion H; auto. Qed.
+
+Lemma plain_same c c' : same_client_cfg c c' -> skippable c -> skippable c'.
+Proof.
+  intros (_ & (pre & Hp) & _ & A & B) [P1 P2]; split; [congruence|].
+  rewrite Hp in P2. eapply Forall_app_r; eauto.
+Qed.
 
 Theorem parser_independent {R} (p : parser R) : wf_parser p -> forall s1 s2,
   good s1 -> good s2 -> rest s1 = rest s2 ->
@@ -870,8 +1004,8 @@ Theorem partition_independent {R} (p : parser R) data plan1 plan2 :
   fst (prun p (init_filt (mk_plain_client data plan2))).
 Proof.
   intros Hp H1 H2. apply parser_independent; [exact Hp| | |].
-  - split; [apply init_Inv; exact H1|split; [reflexivity|split; reflexivity]].
-  - split; [apply init_Inv; exact H2|split; [reflexivity|split; reflexivity]].
+  - split; [apply init_Inv; exact H1|split; [reflexivity|split; [reflexivity|constructor]]].
+  - split; [apply init_Inv; exact H2|split; [reflexivity|split; [reflexivity|constructor]]].
   - rewrite !rest_init by reflexivity. reflexivity.
 Qed.
 
@@ -927,7 +1061,7 @@ Qed.
 
 (* ---------------- corollaries used by the property files ---------------- *)
 Lemma consume_in_bounds s req r s' :
-  Inv s -> ffatal s = false -> plain (cl s) -> consume s req = (r, s') ->
+  Inv s -> ffatal s = false -> skippable (cl s) -> consume s req = (r, s') ->
   Inv s' /\ (r = req \/ r = ARCHIVE_FATAL).
 Proof.
   intros HI Hf Hp H.
@@ -946,7 +1080,7 @@ Proof.
 Qed.
 
 Lemma short_input_consume s req r s' :
-  Inv s -> ffatal s = false -> plain (cl s) -> consume s req = (r, s') ->
+  Inv s -> ffatal s = false -> skippable (cl s) -> consume s req = (r, s') ->
   (Z.of_N (len (rest s)) < req)%Z -> r = ARCHIVE_FATAL.
 Proof.
   intros HI Hf Hp H Hlt.
@@ -972,4 +1106,15 @@ Proof.
   unfold client_skip at 1. rewrite Hp.
   assert (E : (v <? 0)%Z = true) by (apply Z.ltb_lt; lia). rewrite E.
   unfold client_skip; rewrite Hp; reflexivity.
+Qed.
+
+Theorem skip_transparent {R} (p : parser R) data plan1 plan2 sk :
+  wf_parser p -> Forall good_ract plan1 -> Forall good_ract plan2 -> Forall honest_sact sk ->
+  fst (prun p (init_filt (mkClient data 0 plan1 sk [] true false))) =
+  fst (prun p (init_filt (mk_plain_client data plan2))).
+Proof.
+  intros Hp H1 H2 Hs. apply parser_independent; [exact Hp| | |].
+  - split; [apply init_Inv; exact H1|split; [reflexivity|split; [reflexivity|exact Hs]]].
+  - split; [apply init_Inv; exact H2|split; [reflexivity|split; [reflexivity|constructor]]].
+  - rewrite !rest_init by reflexivity. reflexivity.
 Qed.
